@@ -14,7 +14,7 @@ def short(n):
     return str(n)
 
 
-print("| id | cases (distinct non-trivial) | counters of the deciding monitors (quick tier, seed %s) |")
+print("| id | cases (distinct non-trivial) | counters of the deciding monitors (quick tier, seed 0) |")
 print("|---|---|---|")
 for i in range(1, 21):
     pid = "C%02d" % i
